@@ -16,17 +16,19 @@ func init() {
 		ID:    "C03",
 		Title: "A cached response only answers the exact question and audience it was stored for",
 		Run:   runC03,
-		Explanation: "Decided (structure only): R1 the hash-keyed tables of middleware/cache are exactly {PositiveCache.cache, NegativeCache.cache, FailureCache.entries, nxDomainCutCache.byHash, denialProofCache.zoneWireIndex} and each raw keyed lookup (internal/cache.(*Cache).Get, map index, and every function that hands the looked-up value on unverified) is called only from the enumerated owners; " +
+		Explanation: "Decided (structure only): R1 the hash-keyed tables of middleware/cache are exactly {PositiveCache.cache, NegativeCache.cache, FailureCache.entries, nxDomainCutCache.byHash, denialProofCache.zoneWireIndex}; every raw keyed lookup on them is inventoried and decided by R2 (no per-caller allow-table: a caller either verifies or is a listed raw returner); " +
 			"R2 verify-before-use typestate: every value obtained from a raw keyed lookup is passed on, returned, stored, captured, copied or has a field value flow anywhere but a branch only at points unreachable from the lookup without crossing, for every key dimension of the value's type (CacheEntry: question.Name/Qtype/Qclass, cd, scope; failureEntry: kind=question + question.{Name,Qtype,Qclass,CD,Scope} or kind=zone + zone.{Zone,Qclass}; nxDomainCutEntry: deniedName, qclass), a branch edge that establishes that dimension for that same value (field == probe, leaf name comparator, !scope.IsValid(), or a bool function whose computed summary establishes it); a callee that receives the value unverified must itself verify its parameter before any use (verifying consumer), a function returning it unverified must be a listed raw lookup and its callers are checked in turn; " +
 			"R3 the named verifiers establish every dimension (computed from their return edges, not declared), and the key constructors still take exactly (name,type,class,cd[,prefix]); " +
-			"R4 CacheEntry.cd/scope/question, failureEntry.kind/question/zone and nxDomainCutEntry.deniedName/qclass/hash are written only by the constructors / setFromResponseWithKey / ReplaceIfCurrent with origins keyCD, expected.cd, expected.scope, normalizeKeyScope(scope), msg.Question[0]; " +
+			"R4 every store to CacheEntry.cd/scope/question (helper parameters followed to their call sites) originates from the constructor message, setFromResponseWithKey's key CD, normalizeKeyScope(constructor prefix) or the replaced entry in ReplaceIfCurrent; the failure table files an entry under the hash of the normalised key it stores; a cut's hash is nxDomainCutHash of its own identity; " +
 			"R5 the scope a scoped hit is verified against is the probe scope: scopedLookup hashes and returns the same prefix of the client's own address, ServeDNS passes handleCacheHit the scope of the same scopedLookup call (zero for the shared key), WriteMsg stores under the scope it hashed; " +
 			"R6 isPresentationSpecial's byte set equals miekg/dns isDomainNameLabelSpecial's; every folding routine folds exactly 'A'..'Z' by +32; every key builder feeds the hash class-hi, class-lo, type-hi, type-lo, cd(1|0) then the name (and for scoped keys family 4|6, bits, address bytes) in that order; the wire-name walkers use the printable bounds 0x20..0x7E and the /100, /10%10, %10 digits; " +
-			"R7 Store.Purge removes the shared key for both CD values from both sub-caches and sweeps scoped entries.",
+			"R7 Store.Purge removes the shared key for both CD values from both sub-caches and sweeps scoped entries; " +
+			"R8 the subtree-cut and denial-proof indices (no CD dimension, CD=0 validated state) are consulted only behind a CD=false edge — in the lookup, at its call site, or at every caller of a pass-through.",
 		NotDecided: []string{
 			"bit-identity of KeyWire* and Key* outputs for all byte strings (escape arithmetic is value-level; R6 pins only its tables, fold range and component order)",
 			"behaviour under real xxhash collisions beyond \"every hit is behind a full-preimage verifier\"",
 			"interleavings of store/refresh/purge",
+			"that the CD-unkeyed cut / denial-proof indices are consulted only for requests without an ECS audience (R8 decides the CD dimension only)",
 			"that the probe values a verifier compares against are the current request's own (R2 proves a full comparison of the stored identity happened, R5 pins only the scope argument)",
 		},
 	})
@@ -145,13 +147,14 @@ func runC03(c *Ctx) {
 	c03R5(c)
 	c03R6(c)
 	c03R7(c)
+	c03R8(c)
 }
 
 // ---------------------------------------------------------------------------
 // R1 + R2
 
 func c03R1R2(c *Ctx) {
-	c.Doc("C03-R1", "hash-keyed tables of middleware/cache are exactly the five known ones, and every raw keyed lookup (internal/cache.(*Cache).Get in this package, byHash / zoneWireIndex index, PositiveCache.Get, NegativeCache.Get, LookupByKey, checkCache, scopedLookup, loadEntry) is called only from its enumerated owners")
+	c.Doc("C03-R1", "hash-keyed tables of middleware/cache are exactly the five known ones (a new uint64-keyed map / internal cache.Cache field is reported), and every raw keyed lookup on them — internal/cache.(*Cache).Get in this package, byHash / zoneWireIndex index, and each call of a function that hands the value on unverified — is inventoried as a source decided by R2")
 	c.Doc("C03-R2", "verify-before-use typestate: a value from a raw keyed lookup is served/escaped only behind branch edges that establish every key dimension for that same value (see Explanation)")
 
 	getF := c.fobj("C03-R1", "internal/cache.(*Cache).Get")
@@ -247,60 +250,22 @@ func c03R1R2(c *Ctx) {
 		}
 	}
 
-	// R1b who-may
-	P := func(s string) string { return "(*" + c03Pkg + "." + s }
-	c.WhoMay("C03-R1", "internal/cache.(*Cache).Get", getSites, map[string]string{
-		P("PositiveCache).Get"):      "raw table getter",
-		P("NegativeCache).Get"):      "raw table getter",
-		P("FailureCache).loadEntry"): "raw table getter",
-	})
-	c.WhoMay("C03-R1", "nxDomainCutCache.byHash[…]", byHashSites, map[string]string{
-		P("nxDomainCutCache).lookupWire"):        "wire lookup, verifies qclass + name",
-		P("nxDomainCutCache).removeEntryLocked"): "identity comparison before delete",
-	})
-	c.WhoMay("C03-R1", "denialProofCache.zoneWireIndex[…]", zoneSites, map[string]string{
-		P("denialProofCache).missWitnessHoldsWire"): "identity comparison with the witness",
-		P("denialProofCache).publishZoneLocked"):    "identity comparison before delete",
-	})
-	for _, row := range []struct {
-		fn    string
-		allow map[string]string
-	}{
-		{P("PositiveCache).Get"), map[string]string{P("Store).LookupByKey"): "the one raw answer lookup"}},
-		{P("NegativeCache).Get"), map[string]string{P("Store).LookupByKey"): "the one raw answer lookup"}},
-		{P("Store).LookupByKey"), map[string]string{
-			P("Store).LookupByKeyVerified"): "verifies with entryMatchesKey",
-			P("Cache).checkCache"):          "raw probe for the hit chokepoints",
-			P("Cache).scopedLookup"):        "raw longest-prefix probe"}},
-		{P("Cache).checkCache"), map[string]string{
-			P("Cache).ServeDNS"):         "Msg path → handleCacheHit",
-			P("Cache).serveWire"):        "wire fast path → entryMatchesWire",
-			P("Cache).collectWireChase"): "wire chase hop → entryMatchesWireQuestion"}},
-		{P("Cache).scopedLookup"), map[string]string{P("Cache).ServeDNS"): "Msg path → handleCacheHit"}},
-		{P("FailureCache).loadEntry"), map[string]string{
-			P("FailureCache).LookupWire"):           "explicit field conjunctions",
-			P("FailureCache).ResetQuestion"):        "failureQuestionKeysEqual",
-			P("FailureCache).ResetZone"):            "failureZoneKeysEqual",
-			P("FailureCache).record"):               "failureEntriesSameKey",
-			P("FailureCache).loadQuestionWithHash"): "failureQuestionKeysEqual",
-			P("FailureCache).loadZoneWithHash"):     "failureZoneKeysEqual"}},
-	} {
-		f := c.fn("C03-R1", c03FnPath(row.fn))
-		if f == nil {
-			continue
-		}
-		c.WhoMay("C03-R1", c03Short(row.fn), c.CallSites(funcObjOf(f)), row.allow)
-	}
-	c.Floor("C03-R1", 5+3+2+2+2+3+4+2+7)
-
-	// R2
+	// R1b inventory.  (Round 2: the per-function allow-tables of raw-lookup callers were dropped — extracting a
+	// verified-lookup helper is behaviour-preserving and R2 already decides every caller: it must verify before
+	// use or be a listed raw returner.  What remains here is the non-vacuity inventory of the sites R2 decided.)
+	_, _, _ = getSites, byHashSites, zoneSites
 	eng := newC03Engine(c, c03Spec0(c, "C03-R2"))
 	eng.Run(primary)
 	eng.Finish()
-	if eng.Sources < 25 {
-		c.unresolved("C03-R2", "sources", fmt.Sprintf("only %d raw-lookup source sites analysed, 25 confirmed by reading", eng.Sources))
+	for _, src := range eng.Analysed {
+		c.ok("C03-R1", fmt.Sprintf("C03-R1|raw lookup site|%s|%s", src.Desc, fnKey(TopLevel(src.Fn))), instrPos(src.At),
+			fmt.Sprintf("raw keyed lookup %s in %s: every use decided by C03-R2", src.Desc, fnKey(src.Fn)))
 	}
-	c.Floor("C03-R2", 25)
+	c.Floor("C03-R1", 5+15)
+	if eng.Sources < 15 {
+		c.unresolved("C03-R2", "sources", fmt.Sprintf("only %d raw-lookup source sites analysed (25 on the tree this rule was written against)", eng.Sources))
+	}
+	c.Floor("C03-R2", 15)
 }
 
 // c03FnPath turns "(*middleware/cache.Store).LookupByKey" into the anchor syntax "middleware/cache.(*Store).LookupByKey".
@@ -445,166 +410,304 @@ func c03TypeShort(t types.Type) string {
 // ---------------------------------------------------------------------------
 // R4 identity writers
 
+// c03IP: origins of a value followed out of unexported-helper parameters to the
+// arguments of every call site (so a rule about "what is stored" does not
+// depend on whether the store sits in the anchored function or in a helper).
+type c03IP struct {
+	c     *Ctx
+	roots map[*ssa.Function]bool // parameters of these functions are leaves
+}
+
+func (x *c03IP) leaves(e *Expr, depth int) []*Expr {
+	var out []*Expr
+	for _, l := range Origins(e, nil) {
+		ls := strip(l)
+		if ls != nil && ls.K == EParam && depth < 4 {
+			if p, ok := ls.V.(*ssa.Parameter); ok {
+				f := p.Parent()
+				if fo := funcObjOf(f); !x.roots[f] && f.Parent() == nil && fo != nil && !fo.Exported() {
+					idx := -1
+					for i, q := range f.Params {
+						if q == p {
+							idx = i
+						}
+					}
+					var sub []*Expr
+					complete := idx >= 0
+					n := 0
+					for _, s := range x.c.CallSites(fo) {
+						cc := callCommon(s.Instr)
+						if cc == nil || cc.IsInvoke() || s.Kind == "ref" || idx >= len(cc.Args) {
+							complete = false
+							break
+						}
+						n++
+						sub = append(sub, x.leaves(Desc(cc.Args[idx]), depth+1)...)
+					}
+					if complete && n > 0 {
+						out = append(out, sub...)
+						continue
+					}
+				}
+			}
+		}
+		out = append(out, l)
+	}
+	return out
+}
+
+// baseIs: the field/index chain of l ends in (a value that originates only from) parameter want.
+func (x *c03IP) baseIs(l *Expr, want *ssa.Parameter) bool {
+	b := strip(l)
+	for b != nil && (b.K == EField || b.K == EIndex) {
+		b = strip(b.X)
+	}
+	if b == nil || want == nil {
+		return false
+	}
+	ls := x.leaves(b, 0)
+	if len(ls) == 0 {
+		return false
+	}
+	for _, q := range ls {
+		q = strip(q)
+		if q == nil || q.K != EParam || q.V != ssa.Value(want) {
+			return false
+		}
+	}
+	return true
+}
+
+// c03ParamOfType: the unique parameter of fn whose type satisfies pred.
+func c03ParamOfType(fn *ssa.Function, pred func(types.Type) bool) *ssa.Parameter {
+	var out *ssa.Parameter
+	for _, p := range fn.Params {
+		if pred(p.Type()) {
+			if out != nil {
+				return nil
+			}
+			out = p
+		}
+	}
+	return out
+}
+
 func c03R4(c *Ctx) {
-	c.Doc("C03-R4", "the identity fields an entry is verified against are written only where the key is known: CacheEntry.cd ← msg.CheckingDisabled (constructor), keyCD (setFromResponseWithKey), expected.cd (ReplaceIfCurrent); .scope ← normalizeKeyScope(scope) (NewScopedCacheEntry), expected.scope; .question ← msg.Question[0] (constructor); failureEntry.kind/question/zone only in RecordQuestion/RecordZone; nxDomainCutEntry.deniedName/qclass/hash only in record/prepareWire")
-	P := func(s string) string { return "(*" + c03Pkg + "." + s }
+	c.Doc("C03-R4", "the identity an entry is verified against is the identity it was filed under: every store to CacheEntry.cd (wherever it sits — helper parameters are followed to their call sites) takes the constructor message's CheckingDisabled, setFromResponseWithKey's key-CD parameter, or the replaced entry's cd in ReplaceIfCurrent; every store to .scope takes normalizeKeyScope(NewScopedCacheEntry's prefix) or the replaced entry's scope; .question takes the constructor message's Question[0]; the failure table files an entry under the hash of the very normalised key it stores; a cut's hash is nxDomainCutHash(its own deniedName, qclass)")
 	cd := c.field("C03-R4", c03Pkg+".CacheEntry.cd")
 	scope := c.field("C03-R4", c03Pkg+".CacheEntry.scope")
 	question := c.field("C03-R4", c03Pkg+".CacheEntry.question")
 	norm := c.fobj("C03-R4", c03Pkg+".normalizeKeyScope")
 	msgHdrCD := c.field("C03-R4", "github.com/miekg/dns.MsgHdr.CheckingDisabled")
 	msgQuestion := c.field("C03-R4", "github.com/miekg/dns.Msg.Question")
-	if cd == nil || scope == nil || question == nil || norm == nil || msgHdrCD == nil || msgQuestion == nil {
+	ctor := c.fn("C03-R4", c03Pkg+".NewCacheEntryWithKey")
+	sctor := c.fn("C03-R4", c03Pkg+".NewScopedCacheEntry")
+	sfrwk := c.fn("C03-R4", c03Pkg+".(*Store).setFromResponseWithKey")
+	ric := c.fn("C03-R4", c03Pkg+".(*Store).ReplaceIfCurrent")
+	entryT := c.P.TypeName(c03Pkg + ".CacheEntry")
+	if cd == nil || scope == nil || question == nil || norm == nil || msgHdrCD == nil || msgQuestion == nil || ctor == nil || sctor == nil || sfrwk == nil || ric == nil || entryT == nil {
 		return
 	}
-	paramNamed := func(names ...string) Pat {
-		return func(e *Expr) bool {
-			e = strip(e)
-			if e == nil || e.K != EParam {
-				return false
-			}
-			for _, n := range names {
-				if e.Name == n {
-					return true
-				}
-			}
-			return false
+	named := func(pkgSuffix, name string) func(types.Type) bool {
+		return func(t types.Type) bool {
+			n, ok := deref(t).(*types.Named)
+			return ok && n.Obj().Name() == name && n.Obj().Pkg() != nil && strings.HasSuffix(n.Obj().Pkg().Path(), pkgSuffix)
 		}
 	}
-	fieldOfParam := func(fv *types.Var, pname string) Pat {
-		return func(e *Expr) bool {
-			e = strip(e)
-			if e == nil || e.K != EField || e.Var != fv {
-				return false
-			}
-			// base chain ends in the parameter
-			for x := e.X; x != nil; x = x.X {
-				x = strip(x)
-				if x == nil {
-					return false
-				}
-				if x.K == EParam {
-					return x.Name == pname
-				}
-				if x.K != EField && x.K != EIndex {
-					return false
-				}
-			}
-			return false
+	isBool := func(t types.Type) bool {
+		b, ok := t.Underlying().(*types.Basic)
+		return ok && b.Kind() == types.Bool
+	}
+	ctorMsg := c03ParamOfType(ctor, named("miekg/dns", "Msg"))
+	sctorPrefix := c03ParamOfType(sctor, named("net/netip", "Prefix"))
+	keyCD := c03ParamOfType(sfrwk, isBool)
+	expected := c03ParamOfType(ric, func(t types.Type) bool { n, ok := deref(t).(*types.Named); return ok && n.Obj() == entryT })
+	for what, p := range map[string]*ssa.Parameter{"NewCacheEntryWithKey *dns.Msg parameter": ctorMsg, "NewScopedCacheEntry netip.Prefix parameter": sctorPrefix, "setFromResponseWithKey bool (key CD) parameter": keyCD, "ReplaceIfCurrent *CacheEntry parameter": expected} {
+		if p == nil {
+			c.unresolved("C03-R4", what, "no unique parameter of that type (anchor shape changed)")
 		}
 	}
-	type row struct {
+	if ctorMsg == nil || sctorPrefix == nil || keyCD == nil || expected == nil {
+		return
+	}
+	ip := &c03IP{c: c, roots: map[*ssa.Function]bool{ctor: true, sctor: true, sfrwk: true, ric: true}}
+	isParam := func(l *Expr, p *ssa.Parameter) bool {
+		l = strip(l)
+		return l != nil && l.K == EParam && l.V == ssa.Value(p)
+	}
+	rows := []struct {
 		field *types.Var
 		name  string
-		allow map[string]string
-		orig  map[string][]Pat // top-level fnKey → allowed origins
-	}
-	rows := []row{
-		{cd, "CacheEntry.cd", map[string]string{
-			c03Pkg + ".NewCacheEntryWithKey":   "constructor: the message's own CD",
-			P("Store).setFromResponseWithKey"): "e.cd = keyCD",
-			P("Store).ReplaceIfCurrent"):       "inherits expected.cd",
-		}, map[string][]Pat{
-			c03Pkg + ".NewCacheEntryWithKey":   {fieldOfParam(msgHdrCD, "msg")},
-			P("Store).setFromResponseWithKey"): {paramNamed("keyCD")},
-			P("Store).ReplaceIfCurrent"):       {fieldOfParam(cd, "expected")},
+		allow func(l *Expr) string // "" = not allowed, else which origin
+	}{
+		{cd, "CacheEntry.cd", func(l *Expr) string {
+			switch {
+			case FieldIs(msgHdrCD)(l) && ip.baseIs(l, ctorMsg):
+				return "the constructor message's CD"
+			case isParam(l, keyCD):
+				return "setFromResponseWithKey's key CD"
+			case FieldIs(cd)(l) && ip.baseIs(l, expected):
+				return "the replaced entry's cd"
+			}
+			return ""
 		}},
-		{scope, "CacheEntry.scope", map[string]string{
-			c03Pkg + ".NewScopedCacheEntry": "constructor: normalizeKeyScope(scope)",
-			P("Store).ReplaceIfCurrent"):    "inherits expected.scope",
-		}, map[string][]Pat{
-			c03Pkg + ".NewScopedCacheEntry": {func(e *Expr) bool {
-				return CallTo(norm)(e) && len(strip(e).Args) == 1 && paramNamed("scope")(strip(e).Args[0])
-			}},
-			P("Store).ReplaceIfCurrent"): {fieldOfParam(scope, "expected")},
+		{scope, "CacheEntry.scope", func(l *Expr) string {
+			ls := strip(l)
+			switch {
+			case CallTo(norm)(l) && ls.K == ECall && len(ls.Args) == 1:
+				for _, a := range ip.leaves(ls.Args[0], 0) {
+					if !isParam(a, sctorPrefix) {
+						return ""
+					}
+				}
+				return "normalizeKeyScope(the constructor's prefix)"
+			case FieldIs(scope)(l) && ip.baseIs(l, expected):
+				return "the replaced entry's scope"
+			}
+			return ""
 		}},
-		{question, "CacheEntry.question", map[string]string{
-			c03Pkg + ".NewCacheEntryWithKey": "constructor: msg.Question[0]",
-		}, map[string][]Pat{
-			c03Pkg + ".NewCacheEntryWithKey": {func(e *Expr) bool {
-				e = strip(e)
-				return e != nil && e.K == EIndex && fieldOfParam(msgQuestion, "msg")(e.X) && IsConstInt(0)(e.Y)
-			}},
+		{question, "CacheEntry.question", func(l *Expr) string {
+			ls := strip(l)
+			if ls != nil && ls.K == EIndex && FieldIs(msgQuestion)(ls.X) && IsConstInt(0)(ls.Y) && ip.baseIs(ls.X, ctorMsg) {
+				return "the constructor message's Question[0]"
+			}
+			return ""
 		}},
 	}
 	for _, r := range rows {
 		sites := c.StoreSites(r.field)
-		c.WhoMay("C03-R4", "store "+r.name, sites, r.allow)
+		if len(sites) == 0 {
+			c.unresolved("C03-R4", r.name, "no store site found (rule would pass vacuously)")
+		}
 		for _, s := range sites {
-			top := fnKey(TopLevel(s.Fn))
-			pats, ok := r.orig[top]
-			if !ok {
-				continue
+			key := fmt.Sprintf("C03-R4|%s|%s origin", fnKey(TopLevel(s.Fn)), r.name)
+			leaves := ip.leaves(Desc(s.Val), 0)
+			var good, bad []string
+			for _, l := range leaves {
+				if w := r.allow(l); w != "" {
+					good = append(good, w)
+				} else {
+					bad = append(bad, trunc(l.String(), 120))
+				}
 			}
-			c.OriginCheck("C03-R4", fmt.Sprintf("C03-R4|%s|%s origin", top, r.name), s.Instr, r.name+" value in "+top, s.Val, nil, pats...)
+			switch {
+			case len(leaves) == 0:
+				c.undecided("C03-R4", key, instrPos(s.Instr), r.name+": no origin could be determined")
+			case len(bad) > 0:
+				c.violation("C03-R4", key, instrPos(s.Instr), fmt.Sprintf("%s is written from %s in %s: the entry would carry an identity other than the key it is filed under (or the message it was built from)", r.name, strings.Join(bad, " ; "), fnKey(s.Fn)))
+			default:
+				c.ok("C03-R4", key, instrPos(s.Instr), fmt.Sprintf("%s ← %s", r.name, strings.Join(good, " ; ")))
+			}
 		}
 	}
-	// failure / cut identity: writers only
-	for _, w := range []struct {
-		field string
-		allow map[string]string
-	}{
-		{"failureEntry.kind", map[string]string{P("FailureCache).RecordQuestion"): "constructor literal", P("FailureCache).RecordZone"): "constructor literal"}},
-		{"failureEntry.question", map[string]string{P("FailureCache).RecordQuestion"): "normalised key the hash was computed from"}},
-		{"failureEntry.zone", map[string]string{P("FailureCache).RecordZone"): "normalised key the hash was computed from"}},
-		{"nxDomainCutEntry.deniedName", map[string]string{P("nxDomainCutCache).record"): "constructor literal"}},
-		{"nxDomainCutEntry.qclass", map[string]string{P("nxDomainCutCache).record"): "constructor literal"}},
-		{"nxDomainCutEntry.hash", map[string]string{P("nxDomainCutEntry).prepareWire"): "nxDomainCutHash(e.deniedName, e.qclass)"}},
+
+	// failure table: filed under the hash of the very normalised key it stores
+	record := c.fobj("C03-R4", c03Pkg+".(*FailureCache).record")
+	for _, fr := range []struct{ field, hashFn, normFn, what string }{
+		{"failureEntry.question", c03Pkg + ".failureQuestionHash", c03Pkg + ".normalizeFailureQuestionKey", "question"},
+		{"failureEntry.zone", c03Pkg + ".failureZoneHash", c03Pkg + ".normalizeFailureZoneKey", "zone"},
 	} {
-		fv := c.field("C03-R4", c03Pkg+"."+w.field)
-		if fv == nil {
-			continue
-		}
-		c.WhoMay("C03-R4", "store "+w.field, c.StoreSites(fv), w.allow)
-	}
-	// failure identity = the key that was hashed: RecordQuestion/RecordZone store the same normalised key they hash
-	for _, fr := range []struct{ fn, field, hashFn, normFn string }{
-		{c03Pkg + ".(*FailureCache).RecordQuestion", "failureEntry.question", c03Pkg + ".failureQuestionHash", c03Pkg + ".normalizeFailureQuestionKey"},
-		{c03Pkg + ".(*FailureCache).RecordZone", "failureEntry.zone", c03Pkg + ".failureZoneHash", c03Pkg + ".normalizeFailureZoneKey"},
-	} {
-		fn := c.fn("C03-R4", fr.fn)
 		fv := c.field("C03-R4", c03Pkg+"."+fr.field)
 		hf := c.fobj("C03-R4", fr.hashFn)
 		nf := c.fobj("C03-R4", fr.normFn)
-		if fn == nil || fv == nil || hf == nil || nf == nil {
+		if fv == nil || hf == nil || nf == nil || record == nil {
 			continue
 		}
-		var stored, hashed []string
-		for _, in := range instrsWhere(fn, func(in ssa.Instruction) bool { return isFieldStore(in, fv, nil) }) {
-			stored = append(stored, Desc(in.(*ssa.Store).Val).String())
+		ipf := &c03IP{c: c, roots: map[*ssa.Function]bool{}}
+		sites := c.StoreSites(fv)
+		if len(sites) == 0 {
+			c.unresolved("C03-R4", fr.field, "no store site found")
 		}
-		for _, in := range instrsWhere(fn, isPlainCallTo(hf)) {
-			hashed = append(hashed, Desc(callArg(in, 0)).String())
-		}
-		key := fmt.Sprintf("C03-R4|%s|stored key == hashed key", fn.Name())
-		okk := len(stored) == 1 && len(hashed) == 1 && stored[0] == hashed[0]
-		if okk {
-			for _, in := range instrsWhere(fn, func(in ssa.Instruction) bool { return isFieldStore(in, fv, nil) }) {
-				okk = okk && CallTo(nf)(Desc(in.(*ssa.Store).Val))
+		storedIn := map[*ssa.Function][]string{}
+		for _, s := range sites {
+			key := fmt.Sprintf("C03-R4|%s|%s is the normalised key", fnKey(TopLevel(s.Fn)), fr.field)
+			okAll := true
+			var ls []string
+			for _, l := range ipf.leaves(Desc(s.Val), 0) {
+				ls = append(ls, trunc(l.String(), 100))
+				if !CallTo(nf)(l) {
+					okAll = false
+				}
+			}
+			storedIn[TopLevel(s.Fn)] = append(storedIn[TopLevel(s.Fn)], Desc(s.Val).String())
+			if okAll && len(ls) > 0 {
+				c.ok("C03-R4", key, instrPos(s.Instr), fr.field+" ← "+strings.Join(ls, " ; "))
+			} else {
+				c.violation("C03-R4", key, instrPos(s.Instr), fmt.Sprintf("%s is stored from %v, not from %s(…): lookups normalise their probe, so the entry is compared against an identity in another form", fr.field, ls, nf.Name()))
 			}
 		}
-		if okk {
-			c.ok("C03-R4", key, fn.Pos(), fn.Name()+" files the entry under the hash of the very (normalised) key it stores: "+stored[0])
-		} else {
-			c.violation("C03-R4", key, fn.Pos(), fmt.Sprintf("%s: stored identity %v and hashed key %v are not the same normalised key — the entry would be verified against an identity it was not filed under", fn.Name(), stored, hashed))
+		// every hash computed for this kind is the hash of a normalised key, and — where the store is in the same function — of the stored one
+		n := 0
+		for _, s := range c.CallSites(hf) {
+			if s.Kind != "call" {
+				continue
+			}
+			top := TopLevel(s.Fn)
+			// only the hashes that reach record() (file an entry) matter here
+			feeds := false
+			for _, in := range instrsWhere(top, isPlainCallTo(record)) {
+				if Contains(func(e *Expr) bool { return e.V == s.Instr.(ssa.Value) })(Desc(callArg(in, 1))) {
+					feeds = true
+				}
+			}
+			if !feeds {
+				continue
+			}
+			n++
+			key := fmt.Sprintf("C03-R4|%s|stored key == hashed key", top.Name())
+			arg := Desc(callArg(s.Instr, 0))
+			okN := true
+			for _, l := range ipf.leaves(arg, 0) {
+				if !CallTo(nf)(l) {
+					okN = false
+				}
+			}
+			same := true
+			for _, st := range storedIn[top] {
+				if st != arg.String() {
+					same = false
+				}
+			}
+			if okN && same {
+				c.ok("C03-R4", key, instrPos(s.Instr), top.Name()+" files the entry under the hash of the very (normalised) key it stores: "+trunc(arg.String(), 120))
+			} else {
+				c.violation("C03-R4", key, instrPos(s.Instr), fmt.Sprintf("%s: hashed key %s and stored identity %v are not the same normalised key — the entry would be verified against an identity it was not filed under", top.Name(), trunc(arg.String(), 120), storedIn[top]))
+			}
+		}
+		if n == 0 {
+			c.unresolved("C03-R4", fr.hashFn, "no hash feeding FailureCache.record found")
 		}
 	}
-	// cut hash is the hash of the entry's own identity
-	if fn := c.fn("C03-R4", c03Pkg+".(*nxDomainCutEntry).prepareWire"); fn != nil {
+	// cut hash is the hash of the entry's own identity, wherever it is stored
+	{
 		hv := c.field("C03-R4", c03Pkg+".nxDomainCutEntry.hash")
 		dn := c.field("C03-R4", c03Pkg+".nxDomainCutEntry.deniedName")
 		qc := c.field("C03-R4", c03Pkg+".nxDomainCutEntry.qclass")
 		hf := c.fobj("C03-R4", c03Pkg+".nxDomainCutHash")
 		if hv != nil && dn != nil && qc != nil && hf != nil {
-			for _, in := range instrsWhere(fn, func(in ssa.Instruction) bool { return isFieldStore(in, hv, nil) }) {
-				c.OriginCheck("C03-R4", "C03-R4|prepareWire|hash origin", in, "nxDomainCutEntry.hash", in.(*ssa.Store).Val, nil, func(e *Expr) bool {
+			sites := c.StoreSites(hv)
+			if len(sites) == 0 {
+				c.unresolved("C03-R4", "nxDomainCutEntry.hash", "no store site found")
+			}
+			for _, s := range sites {
+				base := ""
+				if st, ok := s.Instr.(*ssa.Store); ok {
+					if fa, ok := st.Addr.(*ssa.FieldAddr); ok {
+						base = Desc(fa.X).String()
+					}
+				}
+				c.OriginCheck("C03-R4", "C03-R4|"+fnKey(TopLevel(s.Fn))+"|hash origin", s.Instr, "nxDomainCutEntry.hash", s.Val, nil, func(e *Expr) bool {
 					e = strip(e)
-					return CallTo(hf)(e) && len(e.Args) == 2 && FieldIs(dn)(e.Args[0]) && FieldIs(qc)(e.Args[1])
+					if !(CallTo(hf)(e) && len(e.Args) == 2 && FieldIs(dn)(e.Args[0]) && FieldIs(qc)(e.Args[1])) {
+						return false
+					}
+					// of this very entry
+					return strip(e.Args[0]).X.String() == base && strip(e.Args[1]).X.String() == base
 				})
 			}
 		}
 	}
-	c.Floor("C03-R4", 3+3+2+2+1+1+2+1+1+1+1+1+2+1)
+	c.Floor("C03-R4", 3+2+1+2+2+1)
 }
 
 // ---------------------------------------------------------------------------
@@ -643,6 +746,26 @@ func c03KeyLitField(hashCall *ssa.Call, field string) ssa.Value {
 		}
 	}
 	return out
+}
+
+// c03Resolve looks through a load of a single-assignment local cell (a variable captured by a closure).
+func c03Resolve(v ssa.Value) ssa.Value {
+	for i := 0; i < 4; i++ {
+		ld, ok := v.(*ssa.UnOp)
+		if !ok || ld.Op != token.MUL {
+			return v
+		}
+		al, ok := ld.X.(*ssa.Alloc)
+		if !ok {
+			return v
+		}
+		st := c03SingleStore(al)
+		if st == nil {
+			return v
+		}
+		v = st
+	}
+	return v
 }
 
 func c03R5(c *Ctx) {
@@ -721,9 +844,9 @@ func c03R5(c *Ctx) {
 	// (b) ServeDNS → handleCacheHit pairing
 	if fn := c.fn("C03-R5", c03Pkg+".(*Cache).ServeDNS"); fn != nil {
 		for _, in := range instrsWhere(fn, isPlainCallTo(hch)) {
-			ent := callArg(in, 3)
-			sc := callArg(in, 5)
-			ky := callArg(in, 4)
+			ent := c03Resolve(callArg(in, 3))
+			sc := c03Resolve(callArg(in, 5))
+			ky := c03Resolve(callArg(in, 4))
 			key := "C03-R5|ServeDNS|handleCacheHit(entry, key, scope)"
 			if ex, ok := ent.(*ssa.Extract); ok {
 				if cl, ok := ex.Tuple.(*ssa.Call); ok && callIs(&cl.Call, scopedLookup) && ex.Index == 0 {
@@ -813,7 +936,7 @@ func c03FoldFacts(fn *ssa.Function) (lower, upper map[int64]bool, adds map[int64
 		b, ok := t.Underlying().(*types.Basic)
 		return ok && (b.Kind() == types.Uint8)
 	}
-	for _, f := range WithAnons(fn) {
+	for _, f := range c03WithCallees(fn) {
 		for _, b := range f.Blocks {
 			for _, in := range b.Instrs {
 				bo, ok := in.(*ssa.BinOp)
@@ -926,7 +1049,7 @@ func c03R6(c *Ctx) {
 			continue
 		}
 		facts := map[string]bool{}
-		for _, f := range WithAnons(fn) {
+		for _, f := range c03WithCallees(fn) {
 			for _, b := range f.Blocks {
 				for _, in := range b.Instrs {
 					bo, ok := in.(*ssa.BinOp)
@@ -975,7 +1098,7 @@ func c03R6(c *Ctx) {
 			c.violation("C03-R6", key, fn.Pos(), fmt.Sprintf("%s: escape mapping facts %s differ from %s — a label byte at the boundary is spelled differently from the presentation form the Msg path hashes", fn.Name(), setString(facts), setString(want)))
 		}
 	}
-	c.Floor("C03-R6", 1+8+7+2)
+	c.Floor("C03-R6", 1+8+6+2)
 }
 
 func c03Keys(m map[int64]bool) []int64 {
@@ -1016,31 +1139,72 @@ func c03OnlyReturnsTrueInCases(fd *ast.FuncDecl) bool {
 	return ok && id.Name == "false"
 }
 
+// c03WithCallees: fn, its closures and — transitively — every statically
+// called function of the same package (with closures).  Where a loop or a
+// comparison lives (inline, or in an unexported helper shared by several
+// builders) must not matter to a rule about what the builder computes.
+func c03WithCallees(fn *ssa.Function) []*ssa.Function {
+	seen := map[*ssa.Function]bool{}
+	var out []*ssa.Function
+	var walk func(f *ssa.Function, depth int)
+	walk = func(f *ssa.Function, depth int) {
+		if f == nil || seen[f] || len(f.Blocks) == 0 || depth > 4 {
+			return
+		}
+		for _, g := range WithAnons(f) {
+			if seen[g] {
+				continue
+			}
+			seen[g] = true
+			out = append(out, g)
+			for _, b := range g.Blocks {
+				for _, in := range b.Instrs {
+					cc := callCommon(in)
+					if cc == nil || cc.IsInvoke() {
+						continue
+					}
+					if sf := cc.StaticCallee(); sf != nil && sf.Pkg != nil && sf.Pkg == fn.Pkg {
+						walk(sf, depth+1)
+					}
+				}
+			}
+		}
+	}
+	walk(fn, 0)
+	return out
+}
+
+// c03Which names the quantity a byte is taken from; parameters of an inlined
+// helper are renamed to what the caller passed (subst).
+func c03Which(x *Expr, subst map[string]string) string {
+	x = strip(x)
+	for x != nil && x.K == EConvert {
+		x = strip(x.X)
+	}
+	if x == nil {
+		return "?"
+	}
+	switch x.K {
+	case EField:
+		return strings.ToLower(x.Name)
+	case EParam:
+		if s, ok := subst[x.Name]; ok {
+			return s
+		}
+		return strings.ToLower(x.Name)
+	case ECall:
+		return strings.ToLower(x.Method)
+	}
+	return "?"
+}
+
 // c03Component names one byte fed to the hash, in canonical form.
-func c03Component(e *Expr) string {
+func c03Component(e *Expr, subst map[string]string) string {
 	e = strip(e)
 	for e != nil && e.K == EConvert {
 		e = strip(e.X)
 	}
 	if e == nil {
-		return "?"
-	}
-	which := func(x *Expr) string {
-		x = strip(x)
-		for x != nil && x.K == EConvert {
-			x = strip(x.X)
-		}
-		if x == nil {
-			return "?"
-		}
-		switch x.K {
-		case EField:
-			return strings.ToLower(x.Name)
-		case EParam:
-			return strings.ToLower(x.Name)
-		case ECall:
-			return strings.ToLower(x.Method)
-		}
 		return "?"
 	}
 	switch e.K {
@@ -1052,62 +1216,119 @@ func c03Component(e *Expr) string {
 		if k, ok := constInt(e.Y); ok {
 			switch {
 			case e.Op == token.SHR && k == 8:
-				return which(e.X) + ".hi"
+				return c03Which(e.X, subst) + ".hi"
 			case e.Op == token.AND && k == 255:
-				return which(e.X) + ".lo"
+				return c03Which(e.X, subst) + ".lo"
 			}
 		}
 	case ECall, EParam, EField:
-		return which(e)
+		return c03Which(e, subst)
+	case EPhi, EAlloc:
+		// a flag byte chosen by a branch: the set of constants it can be
+		set := map[string]bool{}
+		for _, l := range Origins(e, nil) {
+			l = strip(l)
+			for l != nil && l.K == EConvert {
+				l = strip(l.X)
+			}
+			v, ok := constInt(l)
+			if !ok {
+				return "?"
+			}
+			set[fmt.Sprintf("%d", v)] = true
+		}
+		var ks []string
+		for k := range set {
+			ks = append(ks, k)
+		}
+		sort.Strings(ks)
+		if len(ks) > 0 {
+			return strings.Join(ks, "|")
+		}
 	}
 	return "?"
 }
 
-// c03Layout: ordered component list of each key builder.  Straight-line
-// emission order is taken from the dominator-ordered block walk; the two
-// arms of an if that each emit one constant are merged as "a|b".
+type c03Ev struct {
+	block *ssa.BasicBlock
+	comps []string
+	loop  bool
+}
+
+func c03InLoop(b *ssa.BasicBlock) bool {
+	seen := map[*ssa.BasicBlock]bool{}
+	st := append([]*ssa.BasicBlock{}, b.Succs...)
+	for len(st) > 0 {
+		x := st[len(st)-1]
+		st = st[:len(st)-1]
+		if x == b {
+			return true
+		}
+		if seen[x] {
+			continue
+		}
+		seen[x] = true
+		st = append(st, x.Succs...)
+	}
+	return false
+}
+
+// c03Threads: does the callee thread the hash input through — a []byte buffer
+// in and out, or a *wireKeyHasher parameter/receiver?  Only such helpers are
+// inlined into the caller's emission sequence (a builder that delegates the
+// whole key to another builder and returns its hash is not).
+func c03Threads(sf *ssa.Function, hasher *types.TypeName) bool {
+	sig := sf.Signature
+	isBytes := func(t types.Type) bool {
+		sl, ok := t.Underlying().(*types.Slice)
+		return ok && types.Identical(sl.Elem(), types.Typ[types.Uint8])
+	}
+	for _, p := range sf.Params {
+		if n, ok := deref(p.Type()).(*types.Named); ok && hasher != nil && n.Obj() == hasher {
+			return true
+		}
+	}
+	if sig.Results().Len() == 1 && isBytes(sig.Results().At(0).Type()) {
+		for _, p := range sf.Params {
+			if isBytes(p.Type()) {
+				return true
+			}
+		}
+	}
+	return false
+}
+
+// c03Layout: ordered component list of each key builder.  Emission order is
+// the reverse-postorder block walk; helpers that thread the buffer / hasher
+// are inlined at their call (parameters renamed to the caller's arguments), so
+// the sequence does not depend on where a piece of the builder lives.  The two
+// arms of an if that each emit one constant are merged as "a|b"; a byte loop
+// and a bulk append are both "<bytes>".
 func c03Layout(c *Ctx) {
 	writeByte := c.fobj("C03-R6", "internal/cache.(*wireKeyHasher).writeByte")
-	writeHeader := c.fobj("C03-R6", "internal/cache.(*wireKeyHasher).writeHeader")
 	writeWireName := c.fobj("C03-R6", "internal/cache.(*wireKeyHasher).writeWireName")
-	if writeByte == nil || writeHeader == nil || writeWireName == nil {
+	hasher := c.P.TypeName("internal/cache.wireKeyHasher")
+	if writeByte == nil || writeWireName == nil {
 		return
 	}
-	// emission events of one function in dominance order
-	type ev struct {
-		block *ssa.BasicBlock
-		comps []string
-		loop  bool
+	if hasher == nil {
+		c.unresolved("C03-R6", "internal/cache.wireKeyHasher", "type not found")
+		return
 	}
-	events := func(fn *ssa.Function) []ev {
-		var out []ev
-		inLoop := func(b *ssa.BasicBlock) bool {
-			// b is in a loop iff it can reach itself
-			seen := map[*ssa.BasicBlock]bool{}
-			var st []*ssa.BasicBlock
-			st = append(st, b.Succs...)
-			for len(st) > 0 {
-				x := st[len(st)-1]
-				st = st[:len(st)-1]
-				if x == b {
-					return true
-				}
-				if seen[x] {
-					continue
-				}
-				seen[x] = true
-				st = append(st, x.Succs...)
-			}
-			return false
-		}
+	var events func(fn *ssa.Function, subst map[string]string, forceLoop bool, depth int) []c03Ev
+	events = func(fn *ssa.Function, subst map[string]string, forceLoop bool, depth int) []c03Ev {
+		var out []c03Ev
 		for _, b := range c03RPO(fn) {
+			loop := forceLoop || c03InLoop(b)
 			for _, in := range b.Instrs {
 				cl, ok := in.(*ssa.Call)
 				if !ok {
 					continue
 				}
-				if bi, ok := cl.Call.Value.(*ssa.Builtin); ok && bi.Name() == "append" && len(cl.Call.Args) == 2 {
-					// only appends to a []byte whose result feeds the hash are interesting: all appends in key builders
+				if bi, ok := cl.Call.Value.(*ssa.Builtin); ok {
+					if bi.Name() != "append" || len(cl.Call.Args) != 2 {
+						continue
+					}
 					if sl, ok := cl.Type().Underlying().(*types.Slice); !ok || !types.Identical(sl.Elem(), types.Typ[types.Uint8]) {
 						continue
 					}
@@ -1115,41 +1336,64 @@ func c03Layout(c *Ctx) {
 					var comps []string
 					if e.K == EMake {
 						for _, a := range e.Args {
-							comps = append(comps, c03Component(a))
+							comps = append(comps, c03Component(a, subst))
 						}
 					} else {
 						comps = []string{"<bytes>"}
 					}
-					out = append(out, ev{b, comps, inLoop(b)})
+					out = append(out, c03Ev{b, comps, loop})
+					continue
+				}
+				if cl.Call.IsInvoke() {
 					continue
 				}
 				switch {
 				case callIs(&cl.Call, writeByte):
-					out = append(out, ev{b, []string{c03Component(Desc(cl.Call.Args[1]))}, inLoop(b)})
-				case callIs(&cl.Call, writeHeader):
-					out = append(out, ev{b, []string{"<header>"}, false})
+					out = append(out, c03Ev{b, []string{c03Component(Desc(cl.Call.Args[1]), subst)}, loop})
+					continue
 				case callIs(&cl.Call, writeWireName):
-					out = append(out, ev{b, []string{"<name>"}, false})
+					// the name walker is one unit here; its fold range and escape arms are separate clauses
+					out = append(out, c03Ev{b, []string{"<name>"}, false})
+					continue
+				}
+				sf := cl.Call.StaticCallee()
+				if sf == nil || sf.Pkg == nil || sf.Pkg != fn.Pkg || len(sf.Blocks) == 0 || depth >= 4 || !c03Threads(sf, hasher) {
+					continue
+				}
+				inner := map[string]string{}
+				for i, p := range sf.Params {
+					if i < len(cl.Call.Args) {
+						if w := c03Which(Desc(cl.Call.Args[i]), subst); w != "?" {
+							inner[p.Name()] = w
+						}
+					}
+				}
+				for _, e := range events(sf, inner, loop, depth+1) {
+					// blocks of an inlined helper all stand at the call's position
+					out = append(out, c03Ev{e.block, e.comps, e.loop})
 				}
 			}
 		}
 		return out
 	}
-	// fold events into a sequence: loop emissions become "<name>" (byte loop) or "addr…", sibling single-constant arms merge
 	seq := func(fn *ssa.Function) []string {
-		evs := events(fn)
+		evs := events(fn, nil, false, 0)
 		var out []string
 		for i := 0; i < len(evs); i++ {
 			e := evs[i]
-			if e.loop {
-				tag := "<loop:" + strings.Join(e.comps, ",") + ">"
-				if len(out) == 0 || out[len(out)-1] != tag {
-					out = append(out, tag)
+			if e.loop || (len(e.comps) == 1 && e.comps[0] == "<bytes>") {
+				if len(e.comps) == 1 && !c03IsNum(e.comps[0]) {
+					if len(out) == 0 || out[len(out)-1] != "<bytes>" {
+						out = append(out, "<bytes>")
+					}
+				} else {
+					out = append(out, "<loop:"+strings.Join(e.comps, ",")+">")
 				}
 				continue
 			}
 			if len(e.comps) == 1 && i+1 < len(evs) && !evs[i+1].loop && len(evs[i+1].comps) == 1 &&
-				evs[i+1].block != e.block && !evs[i+1].block.Dominates(e.block) && !e.block.Dominates(evs[i+1].block) &&
+				evs[i+1].block != e.block && evs[i+1].block.Parent() == e.block.Parent() &&
+				!evs[i+1].block.Dominates(e.block) && !e.block.Dominates(evs[i+1].block) &&
 				c03IsNum(e.comps[0]) && c03IsNum(evs[i+1].comps[0]) {
 				a, b := e.comps[0], evs[i+1].comps[0]
 				if a > b {
@@ -1164,14 +1408,20 @@ func c03Layout(c *Ctx) {
 		return out
 	}
 	header := []string{"qclass.hi", "qclass.lo", "qtype.hi", "qtype.lo", "0|1"}
+	cat := func(xs ...[]string) []string {
+		var out []string
+		for _, x := range xs {
+			out = append(out, x...)
+		}
+		return out
+	}
 	want := map[string][]string{
-		"internal/cache.Key":                          append(append([]string{}, header...), "<loop:c>"),
-		"internal/cache.KeyString":                    append(append([]string{}, header...), "<loop:c>"),
-		"internal/cache.KeySimple":                    append(append([]string{}, header...), "<loop:c>"),
-		"internal/cache.KeyWithPrefix":                append(append([]string{}, header...), "<loop:c>", "4|6", "bits", "<bytes>"),
-		"internal/cache.(*wireKeyHasher).writeHeader": header,
-		"internal/cache.KeyWire":                      {"<header>", "<name>"},
-		"internal/cache.KeyWireWithPrefix":            {"<header>", "<name>", "4|6", "bits", "<loop:b>"},
+		"internal/cache.Key":               cat(header, []string{"<bytes>"}),
+		"internal/cache.KeyString":         cat(header, []string{"<bytes>"}),
+		"internal/cache.KeySimple":         cat(header, []string{"<bytes>"}),
+		"internal/cache.KeyWithPrefix":     cat(header, []string{"<bytes>", "4|6", "bits", "<bytes>"}),
+		"internal/cache.KeyWire":           cat(header, []string{"<name>"}),
+		"internal/cache.KeyWireWithPrefix": cat(header, []string{"<name>", "4|6", "bits", "<bytes>"}),
 	}
 	var names []string
 	for k := range want {
@@ -1184,16 +1434,6 @@ func c03Layout(c *Ctx) {
 			continue
 		}
 		got := seq(fn)
-		// loop variable names are local: canonicalise "<loop:x>" where x is a single identifier-free component
-		for i, g := range got {
-			if strings.HasPrefix(g, "<loop:") && !strings.Contains(g, ",") && !c03IsNum(strings.TrimSuffix(strings.TrimPrefix(g, "<loop:"), ">")) {
-				if path == "internal/cache.KeyWireWithPrefix" {
-					got[i] = "<loop:b>"
-				} else {
-					got[i] = "<loop:c>"
-				}
-			}
-		}
 		key := "C03-R6|preimage layout|" + fn.Name()
 		if strings.Join(got, " ") == strings.Join(want[path], " ") {
 			c.ok("C03-R6", key, fn.Pos(), fn.Name()+" feeds the hash: "+strings.Join(got, " "))
@@ -1367,4 +1607,121 @@ func c03R7(c *Ctx) {
 		c.violation("C03-R7", "C03-R7|Purge|sweep predicate", fn.Pos(), "Purge no longer sweeps scoped entries (no ForEach)")
 	}
 	c.Floor("C03-R7", 5)
+}
+
+// ---------------------------------------------------------------------------
+// R8 tables that are not keyed by CD are consulted only for CD=0 requests
+
+// c03Gate decides "every execution of `at` happens for a request whose CD bit
+// is clear": `at` is unreachable in its function without crossing a CD=false
+// edge, or — when the function has no such gate of its own ("gating is the
+// caller's") — every in-module call site of the function is gated in turn.
+type c03Gate struct {
+	c    *Ctx
+	bars []Barrier
+	memo map[*ssa.Function]string // "" = gated, else why not
+	busy map[*ssa.Function]bool
+}
+
+func (g *c03Gate) site(at ssa.Instruction, depth int) string {
+	top := TopLevel(at.Parent())
+	ug, tr := g.c.unguarded(at, g.bars, top)
+	if !ug {
+		return ""
+	}
+	if why := g.callers(top, depth+1); why != "" {
+		return fmt.Sprintf("%s reaches it without a CD=false edge (path %s) and %s", fnKey(top), tr, why)
+	}
+	return ""
+}
+
+func (g *c03Gate) callers(fn *ssa.Function, depth int) string {
+	if w, ok := g.memo[fn]; ok {
+		return w
+	}
+	if g.busy[fn] || depth > 3 {
+		return "the caller chain of " + fnKey(fn) + " is recursive or too deep to decide"
+	}
+	g.busy[fn] = true
+	defer delete(g.busy, fn)
+	fo := funcObjOf(fn)
+	why := ""
+	if fo == nil {
+		why = fnKey(fn) + " has no resolvable callers"
+	} else {
+		sites := g.c.CallSites(fo)
+		if len(sites) == 0 {
+			why = fnKey(fn) + " is an ungated entry point (no in-module caller gates it)"
+		}
+		for _, s := range sites {
+			if s.Kind == "ref" {
+				why = fnKey(fn) + " is taken as a function value in " + fnKey(s.Fn)
+				break
+			}
+			if w := g.site(s.Instr, depth); w != "" {
+				why = w
+				break
+			}
+		}
+	}
+	g.memo[fn] = why
+	return why
+}
+
+func c03R8(c *Ctx) {
+	c.Doc("C03-R8", "the subtree-cut index and the denial-proof index hold state validated under CD=0 and have no CD dimension in their key: every call of their lookups (nxDomainCutCache.lookup, nxDomainCutCache.lookupWire, denialProofCache.lookupWithMeta) hands out state only behind a CD=false edge (MsgHdr.CheckingDisabled false / Request.CD() false) — inside the lookup itself, at the call site, or, for a pass-through whose gating is the caller's, at every call site of that pass-through, transitively")
+	cdField := c.field("C03-R8", "github.com/miekg/dns.MsgHdr.CheckingDisabled")
+	cdMeth := c.fobj("C03-R8", "middleware.(*Request).CD")
+	if cdField == nil || cdMeth == nil {
+		return
+	}
+	g := &c03Gate{c: c, memo: map[*ssa.Function]string{}, busy: map[*ssa.Function]bool{},
+		bars: []Barrier{OnFalse("CheckingDisabled", FieldIs(cdField)), OnFalse("Request.CD()", CallTo(cdMeth))}}
+	for _, path := range []string{c03Pkg + ".(*nxDomainCutCache).lookup", c03Pkg + ".(*nxDomainCutCache).lookupWire", c03Pkg + ".(*denialProofCache).lookupWithMeta"} {
+		fn := c.fn("C03-R8", path)
+		if fn == nil {
+			continue
+		}
+		short := c03Short(fnKey(fn))
+		// (a) does the lookup gate itself?  every return that can hand out state is behind CD=false
+		self := true
+		nret := 0
+		for _, b := range fn.Blocks {
+			for _, in := range b.Instrs {
+				r, ok := in.(*ssa.Return)
+				if !ok || len(r.Results) == 0 {
+					continue
+				}
+				if IsConstBool(false)(Desc(r.Results[len(r.Results)-1])) {
+					continue // the miss return
+				}
+				nret++
+				if ug, _ := c.unguarded(in, g.bars, fn); ug {
+					self = false
+				}
+			}
+		}
+		if self && nret > 0 {
+			c.ok("C03-R8", "C03-R8|"+short+"|self-gated", fn.Pos(), short+" hands out state only behind its own CD=false test")
+			continue
+		}
+		// (b) otherwise every call site
+		sites := c.CallSites(funcObjOf(fn))
+		if len(sites) == 0 {
+			c.unresolved("C03-R8", short, "lookup has no call site (rule would pass vacuously)")
+		}
+		for _, s := range sites {
+			key := fmt.Sprintf("C03-R8|%s|called from %s", short, fnKey(TopLevel(s.Fn)))
+			if s.Kind == "ref" {
+				c.violation("C03-R8", key, instrPos(s.Instr), short+" is taken as a function value: its callers cannot be shown to be CD=0 only")
+				continue
+			}
+			if why := g.site(s.Instr, 0); why != "" {
+				c.violation("C03-R8", key, instrPos(s.Instr), fmt.Sprintf("%s (not keyed by CD, built from CD=0 validated state) can be consulted for a checking-disabled request: %s — a CD=1 client is answered from the CD=0 partition", short, trunc(why, 420)))
+			} else {
+				c.ok("C03-R8", key, instrPos(s.Instr), short+" is consulted only behind a CD=false edge (here or at every caller of the pass-through)")
+			}
+		}
+	}
+	c.Floor("C03-R8", 3)
 }
